@@ -64,6 +64,10 @@ func runC04(e *Engine, g G, o RunOpt) RunInfo {
 			s.TLSReply = 1 + g.N("tlsreply", 4)
 		}
 		s.Cert = []int{CertGood, CertGood, CertBoth, CertWrongHost, CertUntrusted, CertExpired, CertAbort, CertAltName}[g.N("cert", 8)]
+		if g.Pct("header-dev", 12) {
+			// the attempt already fails at the stream header, and the peer keeps reading
+			s.Header = []int{HdrWrongRoot, HdrMalformed, HdrStreamError}[g.N("header", 3)]
+		}
 		s.ExtraFeats = g.Bool("extra")
 		s.DelayMs = []int{0, 0, 15}[g.N("delay", 3)]
 		s.ProbeOnClose = g.Pct("probe-after-failure", 30)
